@@ -192,11 +192,16 @@ func (c Corruption) Apply(x *Exchange) bool {
 			return false
 		}
 		x.Resps[c.Pos].Raw = json.RawMessage("null")
-	case "error": // error member next to the result
+	case "error", "error-pos", "error-data": // error member next to the (well-formed) result; Arg = code
+		// "error": negative codes and 0; "error-pos": positive codes (3 execution reverted, 429, proxy codes);
+		// "error-data": with a data member
 		if !inb(c.Pos) {
 			return false
 		}
 		x.Resps[c.Pos].Error = &RPCError{Code: int(c.Arg), Message: "scripted"}
+		if c.Kind == "error-data" {
+			x.Resps[c.Pos].Error.Data = "0x08c379a0"
+		}
 	case "error-only": // error member instead of the result
 		if !inb(c.Pos) {
 			return false
@@ -435,8 +440,15 @@ func Enumerate(x *Exchange, start, limit uint64) []Corruption {
 		}
 		add("null-result", i, 0, 0)
 		add("no-result", i, 0, 0)
-		add("error", i, 0, -32000)
-		add("error", i, 0, 0)
+		for _, code := range []int64{-32000, -32005, -32601, -1, -2147483648, 0} {
+			add("error", i, 0, code)
+		}
+		for _, code := range []int64{1, 3, 429, 32000, 2147483647} {
+			add("error-pos", i, 0, code)
+		}
+		for _, code := range []int64{3, -32000, 429} {
+			add("error-data", i, 0, code)
+		}
 		add("error-only", i, 0, -32005)
 		add("error-only", i, 0, 0)
 		if o, ok := blockObj(x, i); ok {
